@@ -387,6 +387,7 @@ fn build_world(rng: &mut Rng) -> Result<(World, WorldSpec), String> {
         }
     }
     tld.insert(&nm(&[b"plain"], &tld_apex), T_TXT, 300, vec![txt_rd("tld data")]);
+    tld.insert(&nm(&[b"zzz"], &tld_apex), T_TXT, 300, vec![txt_rd("sorts last")]);
     root.insert(&tld_apex, T_NS, 3600, vec![nm(&[b"ns"], &tld_apex)]);
     root.insert(&tld_apex, T_DS, 3600, vec![ds_rdata(&tld_apex, &tld.keys[0].dnskey)]);
     root.insert(&nm(&[b"ns"], &tld_apex), T_A, 3600, vec![vec![192, 0, 2, 55]]);
@@ -1420,6 +1421,33 @@ fn one_world(c: &mut Ctx, rt: &tokio::runtime::Runtime, fam: &str, idx: u64) {
                     c.count(&format!("upstream:{}", what), 1);
                     c.eval(&("upstream", what, rtype, fz));
                 }
+            }
+        }
+    }
+    // ---- a forged denial assembled from validly signed records of two zones: the parent's SOA and apex NSEC, and the
+    // last NSEC of a child zone's chain, which wraps around and so "covers" every name sorting after the child
+    ctx::step("forged denial");
+    for child in [2usize, 5] {
+        if world.zones[1].denial != Denial::Nsec || world.zones[child].denial != Denial::Nsec {
+            continue;
+        }
+        let tld = &world.zones[1];
+        let ch = &world.zones[child];
+        let owners = World::nsec_owners(ch);
+        let (Some(last), Some(soa), Some(apex_nsec)) = (owners.last().and_then(|o| ch.get(o, T_NSEC)), tld.get(&tld.apex, T_SOA), tld.get(&tld.apex, T_NSEC)) else { continue };
+        let qname = nm(&[b"zzz"], &tld.apex);
+        let mut r = Resp { rcode: 3, answer: vec![], authority: vec![], kind: "nxdomain" };
+        push_set(&mut r.authority, soa, None);
+        push_set(&mut r.authority, apex_nsec, None);
+        push_set(&mut r.authority, last, None);
+        let wire = to_wire(rng.u16(), &qname, T_TXT, &r);
+        let (got, _) = validate(rt, &world, UpFault::None, idx * 1000 + 999, &wire);
+        match got {
+            Out::Panic(pi) => c.violation(&format!("panic:{}", pi.site()), &format!("panic validating a forged denial: {} at {}:{}", pi.msg, pi.file, pi.line), c.replay_of(fam, idx, json!({"zones": denials, "wire": hex(&wire)}))),
+            Out::State("Secure") => c.violation("secure-despite:forged-nxdomain-with-nsec-of-a-child-zone", &format!("NXDOMAIN for the existing name {} validates as Secure: its proof is the wrap-around NSEC of the child zone {} next to the parent's SOA", w::name_text(&qname), w::name_text(&ch.apex)), c.replay_of(fam, idx, json!({"zones": denials, "wire": hex(&wire)}))),
+            _ => {
+                c.count("forged_denials_rejected", 1);
+                c.eval(&("forged-denial", child));
             }
         }
     }
